@@ -18,9 +18,10 @@
      exactly t |-> f (s1 t) (s2 t) on the common domain and is undefined
      before it.
    - C04_merge_starts_at_common_domain: the first stamp of the result is the
-     later of the two first stamps. *)
+     later of the two first stamps.
+   - C04_untimed: the whole visitor, for the untimed fragment, computes rhoZ. *)
 From Coq Require Import List ZArith Lia.
-From RV Require Import Val Syntax Dense DenseMerge DenseMergeCorrect ExtZ.
+From RV Require Import Val Syntax Rho Dense DenseSem DenseMerge DenseMergeCorrect DenseEval DenseEvalCorrect ExtZ.
 Import ListNotations.
 Local Open Scope Z_scope.
 
@@ -43,6 +44,32 @@ Theorem C04_merge_starts_at_common_domain :
     out <> [] /\ start out = Z.max (start s1) (start s2).
 Proof. exact (fun VS f s1 s2 out => isect_start f s1 s2 out). Qed.
 Print Assumptions C04_merge_starts_at_common_domain.
+
+(* the visitors of the untimed fragment (variables, constants, arithmetic, comparisons, Boolean operators, unbounded
+   once / historically / eventually / always): the list they build (model DenseEval.deval, compared list-for-list
+   with evaluate() by the check) is strictly increasing, starts at the start of the domain of the formula and denotes
+   the tick semantics there.  SubNeg: the comparison visitors compute -(l - r) where the semantics says r - l. *)
+Theorem C04_untimed :
+  forall (VS : Val) (AR : Arith VS), (forall l r, neg (a2 AR Sub l r) = a2 AR Sub r l) ->
+  forall (W : list dsig) (tend : Z), 0 <= tend ->
+    (forall s, In s W -> dsorted s /\ s <> [] /\ (forall a v, In (a, v) s -> a <= tend)) ->
+  forall p, untimed p = true -> (nvars p <= length W)%nat ->
+    exists s, deval AR p W = Some s /\ dsorted s /\ s <> [] /\ start s = dstart W p /\
+      forall t, den_opt s t = if t <? dstart W p then None else Some (rhoZ AR (fun _ _ => PStd) W tend p t).
+Proof.
+  intros VS AR SN W tend Ht HW p Hu Hn.
+  destruct (deval_correct AR SN W tend Ht HW p Hu Hn) as (s & E & G). exists s. split; [exact E|exact G].
+Qed.
+Print Assumptions C04_untimed.
+
+Lemma ExtZ_sub_neg : forall l r : extz, neg (a2 ExtZArith Sub l r) = a2 ExtZArith Sub r l.
+Proof. intros [|a|] [|b|]; cbn; try reflexivity. f_equal. lia. Qed.
+
+Example C04_untimed_nonvacuous :
+  let W : list (@dsig ExtZVal) := [[(0, Fin 3); (4, Fin 1); (9, Fin 5)]; [(2, Fin 2); (4, Fin 2); (6, Fin 0)]] in
+  let p : @formula ExtZVal := Alw (Or (Pred CGeq (Var 0) (Const (Fin 2))) (Once (Pred CLt (Var 1) (Var 0)))) in
+  untimed p = true /\ deval ExtZArith p W = Some [(2, Fin 1); (9, Fin 5)].
+Proof. cbv zeta. split; vm_compute; reflexivity. Qed.
 
 Example C04_nonvacuous :
   let s1 : @dsig ExtZVal := [(0, Fin 3); (4, Fin 1); (9, Fin 5)] in
